@@ -289,14 +289,14 @@ Proof.
   destruct r as [|c cs]; [reflexivity|]. intro F. apply clean_join_plain; [discriminate | exact F].
 Qed.
 
-(* L2 (with the two hypotheses ruling out a rooted join): cleanOutputPath writes the elements
+(* L2 (with the two hypotheses ruling out a rooted join): the lexical form writes the elements
    of the walk from the workspace root, "." when the walk ends at the root itself *)
-Lemma clean_output_path_rel : forall pkg id r,
+Lemma lexical_output_path_rel : forall pkg id r,
   resolve_from [] (split_slash pkg ++ split_slash id) = Some r ->
   is_abs pkg = false -> (pkg = [] -> is_abs id = false) ->
-  clean_output_path pkg id = render_rel r.
+  lexical_output_path pkg id = render_rel r.
 Proof.
-  intros pkg id r Hr Hpkg Hid. unfold clean_output_path.
+  intros pkg id r Hr Hpkg Hid. unfold lexical_output_path.
   assert (Hpl : Forall plain r) by exact (resolve_from_split2_plain pkg id _ Hr).
   destruct pkg as [|x pkg].
   - change (split_slash [] ++ split_slash id) with ([] :: split_slash id) in Hr.
@@ -313,12 +313,12 @@ Proof.
     + unfold resolve. rewrite split_slash_join. exact Hr.
 Qed.
 
-Lemma clean_output_path_plain : forall pkg id c cs,
+Lemma lexical_output_path_plain : forall pkg id c cs,
   resolve_from [] (split_slash pkg ++ split_slash id) = Some (c :: cs) ->
   is_abs pkg = false -> (pkg = [] -> is_abs id = false) ->
-  clean_output_path pkg id = join slash (c :: cs).
+  lexical_output_path pkg id = join slash (c :: cs).
 Proof.
-  intros pkg id c cs Hr Hpkg Hid. exact (clean_output_path_rel pkg id (c :: cs) Hr Hpkg Hid).
+  intros pkg id c cs Hr Hpkg Hid. exact (lexical_output_path_rel pkg id (c :: cs) Hr Hpkg Hid).
 Qed.
 
 (* ------------------------------------------------------------------ absolute walk *)
@@ -396,6 +396,73 @@ Proof.
   intros rootc pkg rel _. unfold is_within_workspace, location, clean_stack.
   rewrite clean_stack_true_walk; [|intros []].
   apply comps_prefix_spec.
+Qed.
+
+(* ------------------------------------------------------------------ the workspace-relative form *)
+
+(* the elements of an absolute location are plain *)
+Lemma walk_abs_plain : forall cs st,
+  Forall plain st -> (forall c, In c cs -> ~ In ch_slash c) -> Forall plain (walk_abs st cs).
+Proof.
+  induction cs as [|c cs IH]; intros st Hst Hns.
+  - simpl. apply Forall_rev; exact Hst.
+  - rewrite walk_abs_cons.
+    assert (Hns' : forall c0, In c0 cs -> ~ In ch_slash c0)
+      by (intros c0 H0; apply Hns; right; exact H0).
+    destruct (null c || str_eqb c dot) eqn:E1.
+    + exact (IH st Hst Hns').
+    + destruct (str_eqb c dotdot) eqn:E2.
+      * apply IH; [|exact Hns']. destruct st as [|t st']; [constructor|].
+        apply Forall_inv_tail in Hst. exact Hst.
+      * apply IH; [|exact Hns']. constructor; [|exact Hst].
+        apply skip_false in E1 as [Ha Hb]. apply str_eqb_neq in E2.
+        repeat split; try assumption. apply Hns; left; reflexivity.
+Qed.
+
+Lemma location_plain_comps rootc pkg id : Forall plain rootc -> Forall plain (location rootc pkg id).
+Proof.
+  intro Hr. unfold location. apply walk_abs_plain; [constructor|].
+  intros c Hin. apply in_app_or in Hin as [H|H].
+  - rewrite Forall_forall in Hr. exact (plain_noslash c (Hr c H)).
+  - apply in_app_or in H as [H|H]; eapply split_slash_no_slash; exact H.
+Qed.
+
+(* Rel to a base that is a prefix: the remaining elements, no ".." *)
+Lemma rel_comps_prefix base r : rel_comps base (base ++ r) = r.
+Proof.
+  induction base as [|b base IH]; simpl.
+  - destruct r; reflexivity.
+  - rewrite str_eqb_refl. exact IH.
+Qed.
+
+(* workspaceRelativePath is Rel of the location *)
+Lemma workspace_relative_location rootc pkg id :
+  workspace_relative rootc pkg id = rel_comps rootc (location rootc pkg id).
+Proof.
+  unfold workspace_relative, location, clean_stack.
+  rewrite clean_stack_true_walk; [reflexivity | intros []].
+Qed.
+
+(* L2': for an output INSIDE the workspace, however it is spelled, cleanOutputPath writes the
+   elements of its location below the root, "." when it is the root itself *)
+Lemma clean_output_path_within rootc pkg id r :
+  location rootc pkg id = rootc ++ r -> clean_output_path rootc pkg id = render_rel r.
+Proof.
+  intro Hl. unfold clean_output_path. rewrite workspace_relative_location, Hl, rel_comps_prefix.
+  reflexivity.
+Qed.
+
+(* the repair is conservative: on a spelling that never climbs above the root the new key is the
+   old, lexical one *)
+Lemma clean_output_path_lexical rootc pkg id : Forall plain rootc ->
+  resolve_from [] (split_slash pkg ++ split_slash id) <> None ->
+  is_abs pkg = false -> (pkg = [] -> is_abs id = false) ->
+  clean_output_path rootc pkg id = lexical_output_path pkg id.
+Proof.
+  intros Hroot Hres Hpkg Hid.
+  destruct (resolve_from [] (split_slash pkg ++ split_slash id)) as [r|] eqn:Hr; [|contradiction].
+  rewrite (lexical_output_path_rel pkg id r Hr Hpkg Hid).
+  apply clean_output_path_within. exact (location_plain rootc pkg id r Hroot Hr).
 Qed.
 
 (* ------------------------------------------------------------------ string tests vs elements *)
